@@ -64,8 +64,8 @@ def ref_tb(case, arrivals):
     return out
 
 
-def ref_trtb(case, arrivals):
-    """-> [(uid, departure instant, colour)]"""
+def ref_trtb(case, arrivals, want_state=False):
+    """-> [(uid, departure instant, colour)]   (with want_state: also the buckets and the instant the server is free)"""
     t0 = Fr(case["t0"])
     cir, cbs = Fr(case["cir"]), Fr(case["cbs"])
     pir = Fr(case["pir"]) if case["pir"] not in (None, 0, "0/1") else None
@@ -96,6 +96,8 @@ def ref_trtb(case, arrivals):
             C.take(h + w, size)
         out.append((uid, h + w, col))
         free = h + w
+    if want_state:
+        return out, (C, P, free)
     return out
 
 
@@ -152,25 +154,47 @@ class BucketPart:
 
     def gen_case(self, rng, tier, prop_id):
         kind = rng.choice(["tb", "trtb"])
-        sizes = rng.choice([self.SIZES, (64, 128, 256), (128,), (100, 1500), (1, 8, 64)])
-        w = ec.gen_workload(rng, flows=(0, 1, 2), n_max=12, sizes=sizes, gaps=self.GAPS, horizon=80,
-                            burst_p=rng.choice([0.2, 0.5, 0.8]))
+        # "tight": slow rates, small buckets, bursts, no long idle gap - the buckets rarely saturate, so every token counts
+        tight = rng.random() < 0.35
+        if tight:
+            sizes = rng.choice([(64, 128, 256), (64, 100, 128), (128, 256)])
+            if rng.random() < 0.45:
+                # one driver, one or two big bursts: the shaping bucket runs dry inside the burst (token waits, red packets)
+                packets, bursts, uid, t = {}, [], 0, rng.choice(self.GAPS[:5])
+                for _ in range(rng.choice([1, 1, 2])):
+                    uids = []
+                    for _ in range(rng.randint(3, 6)):
+                        packets[str(uid)] = {"id": uid + 1, "flow": rng.choice([0, 1, 2]), "size": rng.choice(list(sizes)),
+                                             "time": cf.qjson(t), "src": "src0"}
+                        uids.append(uid)
+                        uid += 1
+                    bursts.append([cf.qjson(t), uids])
+                    t = t + rng.choice(self.GAPS[1:6])
+                w = {"packets": packets, "drivers": [{"late": rng.choice([0, 0, 1, 2]), "bursts": bursts}]}
+            else:
+                w = ec.gen_workload(rng, flows=(0, 1, 2), n_max=10, sizes=sizes, gaps=self.GAPS[:6], horizon=8,
+                                    burst_p=rng.choice([0.5, 0.8]), ndrivers=rng.choice([1, 1, 2]))
+        else:
+            sizes = rng.choice([self.SIZES, (64, 128, 256), (128,), (100, 1500), (1, 8, 64)])
+            w = ec.gen_workload(rng, flows=(0, 1, 2), n_max=12, sizes=sizes, gaps=self.GAPS, horizon=80,
+                                burst_p=rng.choice([0.2, 0.5, 0.8]))
         t0 = rng.choice([Fr(0)] * 6 + [Fr(1, 2), Fr(3), Fr(100), Fr(-2), Fr(-64)])
         if t0 != 0:
             for d in w["drivers"]:
                 d["bursts"] = [[cf.qjson(Fr(t) + t0), uids] for (t, uids) in d["bursts"]]
         case = {"kind": kind, "t0": cf.qjson(t0), "workload": w, "pre": rng.random() < 0.3}
-        rate = rng.choice(self.RATES)
+        rate = rng.choice(self.RATES[:3] if tight else self.RATES)
+        bsizes = (64, 128, 256, 300, 1000) if tight else self.BSIZES
         if kind == "tb":
             case["rate"] = cf.qjson(rate)
-            case["bsize"] = rng.choice(self.BSIZES)
+            case["bsize"] = rng.choice(bsizes)
             case["peak"] = rng.choice([None, None, 0, cf.qjson(2 * rate), cf.qjson(8 * rate), cf.qjson(rate), cf.qjson(Fr(rate, 2))])
         else:
             case["cir"] = cf.qjson(rate)
-            case["cbs"] = rng.choice(self.BSIZES)
+            case["cbs"] = rng.choice(bsizes)
             if rng.random() < 0.7:
-                case["pir"] = cf.qjson(rng.choice([2, 2, 4, 16, 1]) * rate)
-                case["pbs"] = rng.choice(self.BSIZES)
+                case["pir"] = cf.qjson(rng.choice([2, 2, 4, 1] if tight else [2, 2, 4, 16, 1]) * rate)
+                case["pbs"] = rng.choice(bsizes)
             else:
                 case["pir"] = rng.choice([None, None, None, 0])
                 case["pbs"] = rng.choice([None, 512])
@@ -198,7 +222,33 @@ class BucketPart:
                     w["drivers"].append({"late": rng.choice([0, 0, 1, 2, 4]), "bursts": bursts})
             except Exception:
                 pass
+        # two-rate: a late packet that arrives exactly when the committed (or the peak) bucket, refilled at its rate
+        # at all times, reaches the packet's size: green (resp. not red) by equality; any lost token flips the colour
+        if kind == "trtb" and rng.random() < (0.9 if tight else 0.4):
+            try:
+                self._boundary_arrival(case, rng, sizes)
+            except Exception:
+                pass
         return case
+
+    def _boundary_arrival(self, case, rng, sizes):
+        w = case["workload"]
+        arr = self._static_arrivals(case)
+        _, (C, P, free) = ref_trtb(case, arr, want_state=True)
+        last = max([free] + [t for (_, t, _) in arr])
+        which = C if (P is None or rng.random() < 0.7) else P
+        fit = [s for s in sizes if s <= which.cap]
+        if not fit:
+            return
+        which.fill_to(max(last, which.t))
+        above = [s for s in fit if s > which.level]
+        s3 = rng.choice(above if above else fit)
+        t = which.t + which.earliest(s3) + rng.choice([0, 0, 0, Fr(1, 4), 1])
+        if not ec_exact(t):
+            return
+        uid = max(int(u) for u in w["packets"]) + 1
+        w["packets"][str(uid)] = {"id": uid + 1, "flow": rng.choice([0, 1, 2]), "size": s3, "time": cf.qjson(t), "src": "srcb"}
+        w["drivers"].append({"late": rng.choice([0, 0, 1, 3]), "bursts": [[cf.qjson(t), [uid]]]})
 
     @staticmethod
     def _static_arrivals(case):
